@@ -21,6 +21,10 @@ pub enum SOp {
     Cond(u16, u8, bool),
     Exists(u16, u8),
     Compose(u16, u8, u16),
+    /// and / or of entry a with the first decision-node entry (searching from b) whose support is disjoint from
+    /// a's: operands normalised for independent or nested vtree nodes, which uniform picks rarely produce
+    AndDisjoint(u16, u16),
+    OrDisjoint(u16, u16),
     /// re-derive pool entry i from its truth table as a disjunction of cubes, variables conjoined in the
     /// order given by the keys (a different construction route for the same function)
     Rebuild(u16, Vec<u16>),
@@ -41,6 +45,8 @@ impl SOp {
             SOp::Exists(..) => "exists",
             SOp::Compose(..) => "compose",
             SOp::Rebuild(..) => "rebuild",
+            SOp::AndDisjoint(..) => "and",
+            SOp::OrDisjoint(..) => "or",
         }
     }
 }
@@ -54,6 +60,8 @@ pub fn sop_strategy(with_ite_family: bool, with_rebuild: bool) -> BoxedStrategy<
         (7, (idx_strategy(), idx_strategy()).prop_map(|(a, b)| SOp::Or(a, b)).boxed()),
         (3, (idx_strategy(), any::<u8>(), any::<bool>()).prop_map(|(a, v, b)| SOp::Cond(a, v, b)).boxed()),
         (3, (idx_strategy(), any::<u8>()).prop_map(|(a, v)| SOp::Exists(a, v)).boxed()),
+        (3, (idx_strategy(), idx_strategy()).prop_map(|(a, b)| SOp::AndDisjoint(a, b)).boxed()),
+        (2, (idx_strategy(), idx_strategy()).prop_map(|(a, b)| SOp::OrDisjoint(a, b)).boxed()),
     ];
     if with_ite_family {
         v.push((3, (idx_strategy(), idx_strategy()).prop_map(|(a, b)| SOp::Xor(a, b)).boxed()));
@@ -156,6 +164,26 @@ impl<'a, B: SddBuilder<'a>> SddRun<'a, B> {
                     self.pool[f].1.compose(v, self.pool[g].1),
                     vec![f, g],
                 )
+            }
+            SOp::AndDisjoint(x, y) | SOp::OrDisjoint(x, y) => {
+                let x = self.at(*x);
+                let start = self.at(*y);
+                let sx = self.pool[x].1.support();
+                let n = self.pool.len();
+                let mut y = start;
+                for k in 0..n {
+                    let c = (start + k) % n;
+                    let (p, t) = self.pool[c];
+                    if sdd_is_internal(p) && t.support().iter().all(|v| !sx.contains(v)) {
+                        y = c;
+                        break;
+                    }
+                }
+                if matches!(op, SOp::AndDisjoint(..)) {
+                    (b.and(self.pool[x].0, self.pool[y].0), self.pool[x].1.and(self.pool[y].1), vec![x, y])
+                } else {
+                    (b.or(self.pool[x].0, self.pool[y].0), self.pool[x].1.or(self.pool[y].1), vec![x, y])
+                }
             }
             SOp::Rebuild(a, keys) => {
                 let a = self.at(*a);
